@@ -98,7 +98,10 @@ Definition pyget {A} (l : list A) (i : Z) : res A :=
 Definition tol13 : Q := 1 # 10000000000000.
 Definition tol10 : Q := 1 # 10000000000.
 
-(* _right_left_weights: right weights (left = 1 - right), with the sanity assertion *)
+(* _right_left_weights: right weights (left = 1 - right), with the sanity assertion.  Since the
+   fix commit 14b126cee the code's band is 1e-13 + 8 ulps of |x|/h; the model keeps the
+   narrower band 1e-13: in exact arithmetic the weights of a point of the box are in [0,1], so
+   the difference is not observable (Proofs.C41.weight_band) *)
 Fixpoint right_weights (x : list Q) (axes : list (list Q)) (h : list Q) (base : list Z) : res (list Q) :=
   match x, axes, h, base with
   | xi :: x', a :: axes', hi_ :: h', b :: base' =>
